@@ -29,6 +29,9 @@ MAX_BOUNDARIES = 90
 CUTS = (0, 1, 11, 12, 13, 'mid', 'last')
 
 
+TIMEOUT_INCONCLUSIVE = True  # hangs are decided by quiescence in the simulator, not by the wall clock
+
+
 def budget(tier):
     return dict(shards=16, examples=2 if tier == 'quick' else 10, no_shrink=True)
 
